@@ -268,7 +268,7 @@ def run(repo, res):
                       'hash values (object addresses or PYTHONHASHSEED), so identical requests give differently ordered '
                       'results' % (unparse(site)[:60], unparse(src)[:40], esc),
                       sample='%s: %s' % (key, why or 'does not escape'))
-    res.count('order_observing_sites', nsites, floor=3)
+    res.count('order_observing_sites', nsites, floor=1)
     # hash-ordered dicts handed on
     for fi in funcs:
         an = FnAnalysis(fi.node, ufields, ufuncs)
